@@ -1090,6 +1090,10 @@ func (a *Assembler) cleanSG(half *halfconnection, ac AssemblerContext) {
 		}
 		saved = last
 		nbKept += nb
+		if _, live := r.(*livePacket); live {
+			// pages newly taken for a kept live packet (queued pages are counted already)
+			half.pages += nb
+		}
 	}
 	if *debugLog {
 		log.Printf("Remaining %d chunks in SG\n", nbKept)
@@ -1134,7 +1138,7 @@ func (a *Assembler) addPending(half *halfconnection, firstSeq Sequence) int {
 		var next *page
 		for p := half.saved; p != nil; p = next {
 			next = p.next
-			p.release(a.pc)
+			half.pages -= p.release(a.pc)
 		}
 		half.saved = nil
 		ret = []byteContainer{}
